@@ -103,6 +103,35 @@ fn library_grid(ctx: &Ctx) {
     });
 }
 
+
+type Call = (Vec<u8>, Vec<u8>, u32, u32, u32, usize);
+
+/// A sequence of calls whose inputs are related to one another (same bytes split differently between password and
+/// salt, same inputs with shorter / longer output, one parameter changed, repeated, roles swapped).
+fn related_calls(bytes: &[u8], n: u32, r: u32, p: u32) -> Vec<Call> {
+    let l = bytes.len();
+    let mut calls: Vec<Call> = Vec::new();
+    // every split of the same concatenation, back to back, with a non-increasing output length
+    for k in 0..=l {
+        calls.push((bytes[..k].to_vec(), bytes[k..].to_vec(), n, r, p, 32usize.saturating_sub(k).max(1)));
+    }
+    // and with an increasing one
+    for k in 0..=l {
+        calls.push((bytes[..l - k].to_vec(), bytes[l - k..].to_vec(), n, r, p, 8 + k));
+    }
+    // same inputs: longer then shorter output, other parameters, and again
+    calls.push((bytes.to_vec(), b"salt".to_vec(), n, r, p, 64));
+    calls.push((bytes.to_vec(), b"salt".to_vec(), n, r, p, 16));
+    calls.push((bytes.to_vec(), b"salt".to_vec(), n * 2, r, p, 16));
+    calls.push((bytes.to_vec(), b"salt".to_vec(), n, r + 1, p, 16));
+    calls.push((bytes.to_vec(), b"salt".to_vec(), n, r, p + 1, 16));
+    calls.push((bytes.to_vec(), b"salt".to_vec(), n, r, p, 16));
+    calls.push((b"salt".to_vec(), bytes.to_vec(), n, r, p, 16));
+    calls.push((bytes.to_vec(), b"salt".to_vec(), n, r, p, 16));
+    calls.push((bytes.to_vec(), b"salt".to_vec(), n, r, p, 17));
+    calls
+}
+
 /// scrypt is a function of its arguments only: sequences of calls in ONE thread whose inputs are related
 /// (same bytes split differently between password and salt, same inputs with other output lengths or
 /// parameters, repeated calls) must each give the RFC value, whatever was computed just before.
@@ -113,19 +142,7 @@ fn call_sequences(ctx: &Ctx) {
         let l = rng.range(0, 12);
         let bytes = rng.bytes(l);
         let (n, r, p) = (1u32 << rng.range(1, 5), rng.range(1, 3) as u32, rng.range(1, 2) as u32);
-        let mut calls: Vec<(Vec<u8>, Vec<u8>, u32, u32, u32, usize)> = Vec::new();
-        // every split of the same concatenation, back to back, with a non-increasing output length
-        for k in 0..=l {
-            calls.push((bytes[..k].to_vec(), bytes[k..].to_vec(), n, r, p, 32usize.saturating_sub(k).max(1)));
-        }
-        // same inputs: longer then shorter output, other parameters, and again
-        calls.push((bytes.clone(), b"salt".to_vec(), n, r, p, 64));
-        calls.push((bytes.clone(), b"salt".to_vec(), n, r, p, 16));
-        calls.push((bytes.clone(), b"salt".to_vec(), n * 2, r, p, 16));
-        calls.push((bytes.clone(), b"salt".to_vec(), n, r + 1, p, 16));
-        calls.push((bytes.clone(), b"salt".to_vec(), n, r, p + 1, 16));
-        calls.push((bytes.clone(), b"salt".to_vec(), n, r, p, 16));
-        calls.push((b"salt".to_vec(), bytes.clone(), n, r, p, 16));
+        let calls = related_calls(&bytes, n, r, p);
         let mut prev: Option<String> = None;
         for (pw, salt, n, r, p, dk) in calls {
             ctx.eval();
@@ -206,6 +223,56 @@ fn ffi_canaries(ctx: &Ctx) {
         }
         if i == 3 {
             ctx.sample("C ABI call with canaries", 1, || case());
+        }
+    }
+}
+
+
+/// The same through the C ABI (one process, one thread, the library loaded once): each call of a related sequence
+/// must write the RFC value for ITS OWN arguments - an exported function that remembers its last derivation would
+/// answer from the memory.
+fn ffi_call_sequences(ctx: &Ctx) {
+    let (so, _) = ffi_paths();
+    let cpath = std::ffi::CString::new(so.to_string_lossy().as_bytes()).unwrap();
+    let f: ScryptFn = unsafe {
+        let h = libc::dlopen(cpath.as_ptr(), libc::RTLD_NOW | libc::RTLD_LOCAL);
+        if h.is_null() {
+            ctx.inconclusive(&format!("cannot dlopen {}", so.display()));
+            return;
+        }
+        let sym = libc::dlsym(h, b"scrypt\0".as_ptr() as *const libc::c_char);
+        if sym.is_null() {
+            return;
+        }
+        std::mem::transmute::<*mut libc::c_void, ScryptFn>(sym)
+    };
+    let mut rng = Rng::fork(ctx.seed, "C18-ffi-seq");
+    for round in 0..ctx.tier.pick(6, 60) {
+        let l = rng.range(1, 14);
+        let bytes = rng.bytes(l);
+        let (n, r, p) = (1u32 << rng.range(1, 5), rng.range(1, 3) as u32, rng.range(1, 2) as u32);
+        let mut prev: Option<String> = None;
+        for (pw, salt, n, r, p, dk) in related_calls(&bytes, n, r, p) {
+            ctx.eval();
+            let want = match ossl::scrypt(&pw, &salt, n as u64, r as u64, p as u64, dk) {
+                Some(w) => w,
+                None => continue,
+            };
+            const C: usize = 32;
+            let mut out = vec![0xA5u8; C + dk + C];
+            // exact-size copies so that an empty password / salt is passed as a dangling-but-aligned pointer with length 0
+            let (pwc, sc) = (pw.clone(), salt.clone());
+            unsafe { f(pwc.as_ptr(), pwc.len(), sc.as_ptr(), sc.len(), n, r, p, out.as_mut_ptr().add(C), dk) };
+            let desc = format!("pw={} salt={} N={} r={} p={} dkLen={}", hex(&pw), hex(&salt), n, r, p, dk);
+            if out[..C].iter().any(|b| *b != 0xA5) || out[C + dk..].iter().any(|b| *b != 0xA5) {
+                ctx.violation("C18:ffi:wrote-outside-the-requested-bytes", json!({"this_call": desc, "previous_call": prev}));
+            } else if out[C..C + dk] != want[..] {
+                ctx.violation("C18:ffi:value-depends-on-the-previous-call", json!({"this_call": desc, "previous_call": prev, "got": hex(&out[C..C + dk]), "want": hex(&want)}));
+            } else {
+                ctx.seen("C ABI call sequence: value independent of the previous call");
+                ctx.distinct(&format!("ffiseq|{}|{}", round, desc));
+            }
+            prev = Some(desc);
         }
     }
 }
@@ -426,10 +493,12 @@ pub fn run(ctx: &Ctx) {
     call_sequences(ctx);
     library_grid(ctx);
     ffi_canaries(ctx);
+    ffi_call_sequences(ctx);
     driver_lanes(ctx);
     miri_lanes(ctx);
     ctx.require("library scrypt == OpenSSL", 300);
     ctx.require("call sequence: value independent of the previous call", 50);
     ctx.require("C ABI (dlopen, canaries)", 100);
+    ctx.require("C ABI call sequence: value independent of the previous call", 50);
     ctx.require("valgrind-memcheck: cases clean", 20);
 }
